@@ -235,6 +235,53 @@ fn dropped_while_unwinding(rt: &tokio::runtime::Runtime, nbatches: usize, delay_
     1
 }
 
+/// directed: a LONG manager lifetime -- hundreds of batches, each committed and recycled while the manager is alive (the
+/// recycled-buffer pool of the after-commit thread grows), submitted in waves so that recycled buffers are handed out again
+fn long_lifetime(rt: &tokio::runtime::Runtime, waves: usize, per_wave: usize, group_ops: usize) -> u64 {
+    let db = MockDb::default();
+    db.0.group_ops.store(group_ops, Ordering::Relaxed);
+    let engine = DbBacked::new(db.clone(), Configuration::builder().serialization_workers(2).build());
+    let manager = engine.new_write_manager();
+    let map = engine.new_single_map::<Col, u64>();
+    let sets = engine.new_key_of_set_map::<SetCol, Set>();
+    let mut model: BTreeMap<u64, u64> = BTreeMap::new();
+    let mut set_model: std::collections::BTreeSet<u64> = Default::default();
+    let desc = format!("directed: one write manager lifetime of {waves} waves x {per_wave} batches (group_ops={group_ops}); every batch writes key b%5 and toggles set member b%7");
+    eprintln!("LAST-HISTORY directed: {desc}");
+    let mut b = 0u64;
+    for w in 0..waves {
+        let mut batches = Vec::new();
+        for _ in 0..per_wave {
+            let mut wb = manager.new_write_batch();
+            rt.block_on(map.insert(b % 5, 10_000 + b, &mut wb)); model.insert(b % 5, 10_000 + b);
+            if b % 2 == 0 { rt.block_on(sets.insert(3, b % 7, &mut wb)); set_model.insert(b % 7); } else { rt.block_on(sets.remove(&3, &(b % 7), &mut wb)); set_model.remove(&(b % 7)); }
+            batches.push(wb);
+            b += 1;
+        }
+        for wb in batches { manager.submit_write_batch(wb); }
+        // let the pipeline drain between waves so that committed buffers are recycled and handed out again
+        let want = (w + 1) * per_wave;
+        let t0 = std::time::Instant::now();
+        loop {
+            let n: usize = db.0.commits.lock().unwrap().iter().flatten().filter(|op| matches!(op, Op::Del(k) if k.as_slice() == b"\0batch-boundary")).count();
+            // (a grouping store holds the open physical batch back: do not wait for it)
+            if n >= want || t0.elapsed() > std::time::Duration::from_millis(if group_ops == 0 { 5000 } else { 30 }) { break; }
+            std::thread::yield_now();
+        }
+    }
+    drop(map); drop(sets);
+    drop(manager);
+    let wide = db.0.wide.lock().unwrap();
+    let mut got: BTreeMap<u64, u64> = BTreeMap::new();
+    for k in 0..5u64 { if let Some(v) = wide.get(&wide_key::<Col, u64>(&k)) { got.insert(k, qbice_serialize::postcard::decode::<u64>(v, &qbice_serialize::Plugin::default()).unwrap()); } }
+    if got != model { report_found("write-behind final content != sequential application in creation order", &desc, &format!("{got:?}"), &format!("{model:?}")); }
+    let got_set: std::collections::BTreeSet<u64> = db.0.sets.lock().unwrap().get(&set_key::<SetCol>(&3)).map(|s| s.iter().map(|e| qbice_serialize::postcard::decode::<u64>(e, &qbice_serialize::Plugin::default()).unwrap()).collect()).unwrap_or_default();
+    if got_set != set_model { report_found("write-behind final set content != sequential application in creation order", &desc, &format!("{got_set:?}"), &format!("{set_model:?}")); }
+    let boundaries: usize = db.0.commits.lock().unwrap().iter().flatten().filter(|op| matches!(op, Op::Del(k) if k.as_slice() == b"\0batch-boundary")).count();
+    if boundaries != waves * per_wave { report_found("number of logical batches that reached the store != number submitted", &desc, &format!("{boundaries}"), &format!("{}", waves * per_wave)); }
+    1
+}
+
 fn main() {
     let seed = seed_from_args();
     let mut rng = Rng(seed.wrapping_mul(0x2545F4914F6CDD1D) ^ 0xC10C10);
@@ -256,6 +303,9 @@ fn main() {
     }
     for (nb, dm, go) in [(2usize, 300u64, 0usize), (5, 300, 0), (5, 50, 2), (9, 300, 50)] {
         done += dropped_while_unwinding(&rt, nb, dm, go);
+    }
+    for (waves, per_wave, go) in [(6usize, 40usize, 0usize), (3, 100, 2), (10, 12, 50)] {
+        done += long_lifetime(&rt, waves, per_wave, go);
     }
     for i in 0..n {
         let r = std::panic::catch_unwind(std::panic::AssertUnwindSafe(|| one_history(&rt, &mut rng, i)));
